@@ -9,7 +9,7 @@
 namespace dm {
 using namespace vh;
 
-struct Spawn { double t; int pid; bool norun; std::string uid; std::string dur; int setuid; };
+struct Spawn { double t; int pid; bool norun; std::string uid; std::string dur; int setuid; std::string vtodo; };
 struct Reply { std::vector<std::pair<std::string, std::string>> status; size_t bytes = 0; std::string body; };
 struct TaskRow { std::string uid; int owner; int nsim; bool active; double at; std::string cur; unsigned u; };
 struct Ev { enum K { SUBMIT, REPLY, SPAWN, EXIT, TIME, DUMP, CHK, SHUT, RELOAD, CRASH, FAULT, SYSCALL, OTHER } k; double t = 0; int peer = -1; Spawn sp; Reply rp; int pid = 0; std::vector<TaskRow> rows; std::string raw; int n = 0; };
@@ -37,10 +37,11 @@ inline Trace parse_trace(const std::string &out) {
 	Trace tr; tr.raw = out;
 	std::stringstream ss(out); std::string ln; Ev *dump = nullptr; std::string *body = nullptr;
 	while (std::getline(ss, ln)) {
-		if (body) { if (ln == "ENDBODY") body = nullptr; else *body += ln + "\n"; continue; }
+		if (body) { if (ln == "ENDBODY" || ln == "ENDVTODO") body = nullptr; else *body += ln + "\n"; continue; }
 		Ev e; e.k = Ev::OTHER; e.raw = ln;
 		if (ln.compare(0, 7, "SUBMIT ") == 0) { e.k = Ev::SUBMIT; sscanf(ln.c_str(), "SUBMIT t=%lf peer=%d", &e.t, &e.peer); }
 		else if (ln.compare(0, 6, "REPLY ") == 0) { e.k = Ev::REPLY; unsigned long b = 0; sscanf(ln.c_str(), "REPLY bytes=%lu", &b); e.rp.bytes = b; size_t p = 0; while ((p = ln.find('[', p)) != std::string::npos) { size_t q = ln.find(']', p); if (q == std::string::npos) break; std::string in = ln.substr(p + 1, q - p - 1); size_t sp = in.rfind(' '); e.rp.status.push_back({in.substr(0, sp), in.substr(sp + 1)}); p = q; } }
+		else if (ln.compare(0, 6, "VTODO ") == 0) { for (size_t k = tr.ev.size(); k-- > 0;) if (tr.ev[k].k == Ev::SPAWN) { body = &tr.ev[k].sp.vtodo; break; } continue; }
 		else if (ln.compare(0, 5, "BODY ") == 0) { if (!tr.ev.empty()) body = &tr.ev.back().rp.body; continue; }
 		else if (ln.compare(0, 6, "SPAWN ") == 0) { e.k = Ev::SPAWN; char uid[300] = "", dur[80] = ""; int nr = 0, su = -1; const char *u = strstr(ln.c_str(), " uid="); sscanf(ln.c_str(), "SPAWN t=%lf pid=%d norun=%d", &e.sp.t, &e.sp.pid, &nr); if (u) { const char *d = strstr(u, " dur="); const char *s = strstr(u, " setuid="); if (d) { snprintf(uid, sizeof uid, "%.*s", (int)(d - u - 5), u + 5); if (s) snprintf(dur, sizeof dur, "%.*s", (int)(s - d - 5), d + 5); if (s) su = atoi(s + 8); } } e.sp.norun = nr; e.sp.uid = uid; e.sp.dur = dur; e.sp.setuid = su; e.t = e.sp.t; }
 		else if (ln.compare(0, 5, "EXIT ") == 0) { e.k = Ev::EXIT; sscanf(ln.c_str(), "EXIT t=%lf pid=%d", &e.t, &e.pid); }
